@@ -3,6 +3,8 @@ package main
 // C17: method dispatch through a real server. Case lines:
 //   A <builtin> <tree> <hexname>   -> H<id> | B | N | E<code>   (+"!ctx..." if a context check failed)
 //   Q <builtin> <tree> <hexname,hexname,...> -> the outcomes of one Batch of calls with these names, in order
+//   R <builtin> <tree> <hexname> <hex JSON literal> -> like A, the method sent on the wire as this very literal
+//   J <maptree> <hexname>           -> methods listed by rpc.serverInfo before | after <hexname> is added to the assigner
 //   M <tree>                        -> Names() of the assigner
 //   I <tree>                        -> methods listed by rpc.serverInfo
 
@@ -184,6 +186,73 @@ func (t *atree) build(log *ctxLog, srv **jrpc2.Server) jrpc2.Assigner {
 	}
 }
 
+// dynMap is an assigner whose method set changes while the server lives (NewServer's documentation allows a
+// concurrency-safe assigner to do so): Names and Assign always answer from the current set.
+type dynMap struct {
+	mu sync.Mutex
+	m  handler.Map
+}
+
+func (d *dynMap) Assign(ctx context.Context, method string) jrpc2.Handler {
+	d.mu.Lock()
+	defer d.mu.Unlock()
+	return d.m.Assign(ctx, method)
+}
+func (d *dynMap) Names() []string {
+	d.mu.Lock()
+	defer d.mu.Unlock()
+	return d.m.Names()
+}
+
+// infoNames asks rpc.serverInfo for the method list.
+func (s *c17Server) infoNames() string {
+	var info jrpc2.ServerInfo
+	if err := s.cli.CallResult(context.Background(), "rpc.serverInfo", nil, &info); err != nil {
+		return "E" + err.Error()
+	}
+	return showNames(info.Methods)
+}
+
+// rawCall sends one request whose method member is the given JSON string literal, byte for byte (a peer that is
+// not this library's client may spell a name with escapes Go's encoder never writes: \/ , surrogate pairs).
+func rawCall(builtin bool, t *atree, lit string) string {
+	log := &ctxLog{}
+	var srv *jrpc2.Server
+	root := t.build(log, &srv)
+	cch, sch := channel.Direct()
+	srv = jrpc2.NewServer(checking{root, log}, &jrpc2.ServerOptions{DisableBuiltin: !builtin, Concurrency: 1})
+	srv.Start(sch)
+	defer func() { cch.Close(); srv.Wait() }()
+	if err := cch.Send([]byte(`{"jsonrpc":"2.0","id":1,"method":` + lit + `}`)); err != nil {
+		return "E?send"
+	}
+	raw, err := cch.Recv()
+	if err != nil {
+		return "E?recv"
+	}
+	var rsp struct {
+		Error  *struct{ Code int } `json:"error"`
+		Result *struct {
+			Tag       *int    `json:"tag"`
+			StartTime *string `json:"startTime"`
+		} `json:"result"`
+	}
+	if json.Unmarshal(raw, &rsp) != nil {
+		return "E?json"
+	}
+	switch {
+	case rsp.Error != nil && rsp.Error.Code == int(jrpc2.MethodNotFound):
+		return "N" + log.take()
+	case rsp.Error != nil:
+		return fmt.Sprintf("E%d", rsp.Error.Code) + log.take()
+	case rsp.Result != nil && rsp.Result.Tag != nil:
+		return fmt.Sprintf("H%d", *rsp.Result.Tag) + log.take()
+	case rsp.Result != nil && rsp.Result.StartTime != nil:
+		return "B" + log.take()
+	}
+	return "E?shape"
+}
+
 type c17Server struct {
 	key  string
 	log  *ctxLog
@@ -327,6 +396,29 @@ func (e *c17Exec) exec(fields []string) string {
 			names = append(names, unhexf(h))
 		}
 		return e.cur.batch(names)
+	case "R":
+		// fields: builtin, tree, hex of the decoded name (for the model), hex of the JSON literal sent
+		return rawCall(fields[1] == "1", parseTree(fields[2]), unhexf(fields[4]))
+	case "J":
+		// fields: tree (a Map), hex of a name added to the assigner between two rpc.serverInfo queries
+		t := parseTree(fields[1])
+		log := &ctxLog{}
+		sv := &c17Server{log: log}
+		base, _ := t.build(log, &sv.srv).(handler.Map)
+		d := &dynMap{m: handler.Map{}}
+		for k, v := range base {
+			d.m[k] = v
+		}
+		cch, sch := channel.Direct()
+		sv.srv = jrpc2.NewServer(d, &jrpc2.ServerOptions{Concurrency: 1})
+		sv.srv.Start(sch)
+		sv.cli = jrpc2.NewClient(cch, nil)
+		defer sv.stop()
+		first := sv.infoNames()
+		d.mu.Lock()
+		d.m[unhexf(fields[2])] = func(context.Context, *jrpc2.Request) (any, error) { return map[string]int{"tag": 999}, nil }
+		d.mu.Unlock()
+		return first + "|" + sv.infoNames()
 	case "M":
 		t := parseTree(fields[1])
 		var srv *jrpc2.Server
@@ -490,6 +582,28 @@ func c17Names(r *rng, t *atree, tier string) []string {
 	return out
 }
 
+// jsonSpellings returns JSON string literals that all decode to s: Go's own encoding, every character as \uXXXX
+// (surrogate pairs beyond the BMP), and / written as \/.
+func jsonSpellings(s string) []string {
+	plain, _ := json.Marshal(s)
+	var esc strings.Builder
+	esc.WriteByte('"')
+	for _, r := range s {
+		if r > 0xffff {
+			r -= 0x10000
+			fmt.Fprintf(&esc, "\\u%04x\\u%04x", 0xd800+(r>>10), 0xdc00+(r&0x3ff))
+		} else {
+			fmt.Fprintf(&esc, "\\u%04x", r)
+		}
+	}
+	esc.WriteByte('"')
+	out := []string{string(plain), esc.String()}
+	if strings.Contains(s, "/") {
+		out = append(out, strings.ReplaceAll(string(plain), "/", "\\/"))
+	}
+	return out
+}
+
 func c17Main(cfg *config) {
 	w := newCaseWriter(cfg.out)
 	defer w.close()
@@ -538,6 +652,12 @@ func c17Main(cfg *config) {
 		w.line(append(fm, ex.exec(fm))...)
 		fi := []string{"I", ts}
 		w.line(append(fi, ex.exec(fi))...)
+		if t.kind == 'm' {
+			for _, add := range []string{"zz", "0first", "m.mid"} {
+				fj := []string{"J", ts, hexf(add)}
+				w.line(append(fj, ex.exec(fj))...)
+			}
+		}
 		names := c17Names(r, t, cfg.tier)
 		for _, b := range []string{"1", "0"} {
 			for _, n := range names {
@@ -565,6 +685,17 @@ func c17Main(cfg *config) {
 				}
 				fq := []string{"Q", b, ts, strings.Join(hs, ",")}
 				w.line(append(fq, ex.exec(fq))...)
+			}
+			// names spelled on the wire with escapes a JSON peer may use: \/ for /, \uXXXX for any character,
+			// surrogate pairs for characters beyond the BMP
+			for _, p := range append(t.paths()[:min(3, len(t.paths()))], "a/b", "x\U0001F600", "rpc.serverInfo", "nope") {
+				if p == "" {
+					continue
+				}
+				for _, lit := range jsonSpellings(p) {
+					fr := []string{"R", b, ts, hexf(p), hexf(lit)}
+					w.line(append(fr, ex.exec(fr))...)
+				}
 			}
 		}
 	}
